@@ -9,6 +9,7 @@ package codon
 // verif:bound C07 threshold clause: one amino acid with 2 (quick) / 3 (thorough) synonymous codons, symbolic weights 0..15 (quick) / 0..63 (thorough): every emitted codon has 10*w > sum(w) and w > 0; an amino acid whose synonyms all have weight 0 is rejected with an error
 // verif:bound C07 random-protein clause: random.ProteinSequence of length 3 (quick) / 3..5 (thorough) for every value of its rand.Intn draws, optimised under tables 1, 11 (quick) / all 25 (thorough)
 // verif:assume C07 math/rand.Intn(n) returns an arbitrary value in [0,n) and panics for n <= 0; rand.Seed and the clock have no effect
+// verif:bound C07 exact threshold clause: 2 synonyms with weights enumerated 0..20 (thorough: second weight also in multiples of 9), 3 synonyms 0..6 (quick) / 0..12 (thorough): real float64 arithmetic, all rand.Intn draws symbolic
 // verif:assume C07 threshold clause: float64 division and comparison in chooser() are abstracted to real arithmetic (rounding is outside the claim)
 // verif:bound C07 outside the claim: the statistical proportionality clause (nothing is claimed about math/rand's distribution); proteins longer than the bound
 
@@ -105,6 +106,52 @@ func Harness_C07_Threshold() {
 			vCover("C07 a rare synonym exists but is not emitted", vAnd(vLtInt(0, w[(i+1)%k]), vNot(vLtInt(sum, 10*w[(i+1)%k]))))
 		}
 	}
+}
+
+// the same clause with ENUMERATED weights: chooser()'s float64 division and comparison are then
+// executed with real IEEE arithmetic (no abstraction), which decides the exact 10% boundary
+func Harness_C07_ThresholdExact() {
+	k := 2 + vChoice(vTier(1, 2))
+	hi := 21
+	if k == 3 {
+		hi = vTier(7, 13)
+	}
+	triplets := []string{"GCT", "GCC", "GCA"}[:k]
+	w := make([]int, k)
+	var codons []Codon
+	sum := 0
+	for i := 0; i < k; i++ {
+		w[i] = vChoice(hi)
+		if i == 1 && k == 2 && vTier(0, 1) == 1 {
+			w[i] = w[i] * 9 // also reach shares of exactly 10% with larger totals
+		}
+		sum += w[i]
+		codons = append(codons, Codon{triplets[i], w[i]})
+	}
+	table := Table{[]string{"ATG"}, []string{"TAA"}, []AminoAcid{{"A", codons}}}
+	var dna string
+	var err error
+	panicked := vPanics(func() { dna, err = Optimize("A", table) })
+	vAssert(!panicked, "optimize-does-not-panic")
+	if panicked {
+		return
+	}
+	eligible := false
+	for i := 0; i < k; i++ {
+		if 10*w[i] > sum && w[i] > 0 {
+			eligible = true
+		}
+	}
+	vAssert((err == nil) == eligible, "error-exactly-when-no-codon-is-eligible")
+	if err != nil {
+		return
+	}
+	for i := 0; i < k; i++ {
+		if dna == triplets[i] {
+			vAssert(10*w[i] > sum && w[i] > 0, "emitted-codon-has-share-above-ten-percent")
+		}
+	}
+	vCover("C07 a codon with a share of exactly ten percent", k == 2 && sum > 0 && 10*w[0] == sum)
 }
 
 func Harness_C07_RandomProtein() {
